@@ -2,6 +2,8 @@
 From Coq Require Import String List Bool ZArith Permutation.
 Import ListNotations.
 Require Import V.Lib.PyStr V.Lib.JTree V.Det.Model V.Det.Proofs V.Det.Refs V.Det.Aggregate V.Det.Replicate V.Det.Reparam.
+Require V.Det.StageVars.
+Module SV := V.Det.StageVars.
 Open Scope string_scope.
 Open Scope list_scope.
 
@@ -147,3 +149,18 @@ Proof.
   - cbv zeta. split; [vm_compute; discriminate|reflexivity].
 Qed.
 Print Assumptions C15_lazy_snapshot_refuted.
+
+(* Why `context = global_variables.copy()` has to stay INSIDE the loop over the stages of FlowIRConcrete.instance()
+   (Det.StageVars.walk_hoisted builds it once before the loop): the context then keeps the variables of the stages
+   visited earlier, and the order of the visits is the iteration order of a set.  Stage 0 (workdir = %(base)s/zero,
+   no base of its own) resolves /global/zero when it is visited first and /one/zero when stage 1 (base = /one) was
+   visited before it.  No finding: the code rebuilds the context for every stage (SV.walk, the C15_stage_variables theorems). *)
+Theorem C15_hoisted_context_refuted :
+  exists p o1 o2 sk, Permutation o1 o2 /\
+    lookup sk (SV.walk_hoisted p o1) <> lookup sk (SV.walk_hoisted p o2) /\
+    lookup sk (SV.walk p o1) = lookup sk (SV.walk p o2).
+Proof.
+  exists SV.ex_pkg, ["0"; "1"; "2"], ["2"; "1"; "0"], "0". split; [apply (Permutation_rev ["0"; "1"; "2"])|].
+  split; [vm_compute; discriminate|vm_compute; reflexivity].
+Qed.
+Print Assumptions C15_hoisted_context_refuted.
